@@ -11,6 +11,8 @@
       coordinator itself or reported ready, contains the coordinator and no excluded peer — under `self ∈ holders`,
       `self ∉ excluded` (what the election guarantees: the coordinator is elected among the non-excluded key holders);
       excluded points: `self_excluded_point`, `self_not_holder_point`.
+      `announces_when_enough` (liveness side): with t ≥ 1, once t distinct non-excluded key holders other than the
+      coordinator are among the ready senders a subset IS announced (excluded point `threshold_zero_point`).
    3. `obeys_only_coordinator`: for every message trace, a relayer with known coordinator `c` sends ready only to `c`
       and at most once per initiate from `c`, runs at most one process and only with the params of a start message
       from `c`, aborts only on a fail / malformed start from `c`; `forged_messages_change_nothing`: deleting every
@@ -148,6 +150,77 @@ theorem initiateFrom_ok (key : α → Nat) (cfg : ICfg α) (hself : cfg.self ∈
         · simp at x; subst x; simp), e, f⟩
     · have := ih (seen ++ [p]) _ (n + 1) hstep hres
       simpa using this
+
+/-- number of ready key holders -/
+def rpLen (cfg : ICfg α) (rs : List α) : Nat := (readyParticipants cfg.holders rs).length
+
+theorem rpLen_append (cfg : ICfg α) (rs : List α) (p : α) :
+    rpLen cfg (rs ++ [p]) = rpLen cfg rs + (if p ∈ cfg.holders then 1 else 0) := by
+  unfold rpLen
+  rw [readyParticipants_append]
+  by_cases h : p ∈ cfg.holders <;> simp [readyParticipants, h]
+
+theorem initiateFrom_live (key : α → Nat) (cfg : ICfg α) (arr : List α) :
+    ∀ (rs E : List α) (n : Nat), rpLen cfg rs ≤ cfg.t → E.Nodup →
+      (∀ q ∈ E, q ∈ arr ∧ q ∈ cfg.holders ∧ q ∉ cfg.excluded ∧ q ∉ rs) →
+      cfg.t + 1 ≤ rpLen cfg rs + E.length → (initiateFrom key cfg rs arr n).isSome = true := by
+  induction arr with
+  | nil =>
+    intro rs E n hc _ hE hsum
+    cases E with
+    | nil => simp at hsum; omega
+    | cons q qs => have := (hE q (by simp)).1; simp at this
+  | cons p ps ih =>
+    intro rs E n hc hnd hE hsum
+    simp only [initiateFrom]
+    split
+    · rfl
+    · next hnr =>
+      have hnr' : rpLen cfg (addReady cfg rs p) ≠ cfg.t + 1 := by
+        intro h; apply hnr; simp [isReady]; exact h
+      by_cases hpE : p ∈ E
+      · obtain ⟨_, hph, hpx, hprs⟩ := hE p hpE
+        have hadd : addReady cfg rs p = rs ++ [p] := by simp [addReady, hpx, hprs]
+        rw [hadd] at hnr' ⊢
+        have hlen : rpLen cfg (rs ++ [p]) = rpLen cfg rs + 1 := by rw [rpLen_append]; simp [hph]
+        apply ih (rs ++ [p]) (E.erase p) (n + 1)
+        · omega
+        · exact hnd.erase p
+        · intro q hq
+          have hqE : q ∈ E := List.mem_of_mem_erase hq
+          have hqp : q ≠ p := by
+            intro e; subst e; exact (List.Nodup.not_mem_erase hnd) hq
+          obtain ⟨hqa, hqh, hqx, hqrs⟩ := hE q hqE
+          refine ⟨?_, hqh, hqx, ?_⟩
+          · rcases List.mem_cons.1 hqa with e | e
+            · exact absurd e hqp
+            · exact e
+          · simp [hqrs, hqp]
+        · rw [List.length_erase_of_mem hpE, hlen]
+          have : 0 < E.length := List.length_pos_of_mem hpE
+          omega
+      · have hle : rpLen cfg rs ≤ rpLen cfg (addReady cfg rs p) := by
+          unfold addReady; split
+          · rw [rpLen_append]; omega
+          · exact Nat.le_refl _
+        have hle2 : rpLen cfg (addReady cfg rs p) ≤ rpLen cfg rs + 1 := by
+          unfold addReady; split
+          · rw [rpLen_append]; split <;> omega
+          · omega
+        apply ih (addReady cfg rs p) E (n + 1)
+        · omega
+        · exact hnd
+        · intro q hq
+          obtain ⟨hqa, hqh, hqx, hqrs⟩ := hE q hq
+          have hqp : q ≠ p := fun e => hpE (e ▸ hq)
+          refine ⟨?_, hqh, hqx, ?_⟩
+          · rcases List.mem_cons.1 hqa with e | e
+            · exact absurd e hqp
+            · exact e
+          · unfold addReady; split
+            · simp [hqrs, hqp]
+            · exact hqrs
+        · omega
 
 theorem stepWait_finished (c : Option α) (s : WSt α) (r : Res) (h : s.phase = .finished r) (e : Ev α) :
     stepWait c s e = s := by
@@ -314,6 +387,27 @@ theorem announced_subset_ok (key : α → Nat) (cfg : ICfg α) (hself : cfg.self
 
 example : initiate (fun n : Nat => n) ⟨0, [0, 1, 2, 3, 4], 2, [4]⟩ [7, 4, 1, 1, 0, 3, 2] = some (6, [3, 1, 0]) ∧
     (0 : Nat) ∈ [0, 1, 2, 3, 4] ∧ (0 : Nat) ∉ [4] := by decide
+
+/-- **C07-2 (liveness side).** If t ≥ 1 and t distinct peers that hold a key share, are not excluded and are not the
+    coordinator itself occur among the ready senders, the coordinator (a key holder) does announce a subset. -/
+theorem announces_when_enough (key : α → Nat) (cfg : ICfg α) (hself : cfg.self ∈ cfg.holders) (ht : 1 ≤ cfg.t)
+    (arrivals E : List α) (hnd : E.Nodup) (hlen : E.length = cfg.t)
+    (hE : ∀ q ∈ E, q ∈ arrivals ∧ q ∈ cfg.holders ∧ q ∉ cfg.excluded ∧ q ≠ cfg.self) :
+    (initiate key cfg arrivals).isSome = true := by
+  apply initiateFrom_live key cfg arrivals [cfg.self] E 0
+  · simp [rpLen, readyParticipants, hself]; exact ht
+  · exact hnd
+  · intro q hq; obtain ⟨a, b, c, d⟩ := hE q hq; exact ⟨a, b, c, by simpa using d⟩
+  · simp [rpLen, readyParticipants, hself]; omega
+
+example : ([1, 2] : List Nat).Nodup ∧ (∀ q ∈ ([1, 2] : List Nat), q ∈ [7, 4, 1, 1, 0, 3, 2] ∧ q ∈ [0, 1, 2, 3, 4] ∧ q ∉ [4] ∧ q ≠ 0) := by
+  decide
+
+/-- excluded point of the liveness side: with threshold 0 the subset (the coordinator alone) is announced only when a
+    ready message from a peer WITHOUT a key share arrives; key holders' messages overshoot the `== t+1` test -/
+theorem threshold_zero_point :
+    initiate (fun n : Nat => n) ⟨0, [0, 1, 2], 0, []⟩ [1, 2] = none ∧
+    initiate (fun n : Nat => n) ⟨0, [0, 1, 2], 0, []⟩ [7] = some (1, [0]) := by decide
 
 /-- excluded point: a coordinator that is itself on the excluded list still puts itself into the subset -/
 theorem self_excluded_point :
